@@ -129,7 +129,7 @@ func suiteSchema(m map[string]interface{}) *spec.Schema {
 
 // HarnessSuiteFixtures: one labelled case per path.
 func HarnessSuiteFixtures() {
-	c := suiteCases[verifChoose(len(suiteCases))]
+	c := suiteCaseAt(verifChoose(suiteCaseCount))
 	s := suiteSchema(c.schema)
 	// the two documented deviations of the library from the labels' semantics are excluded here
 	// exactly as in the families (known findings of C01)
